@@ -1,17 +1,22 @@
-\* quick: 4 lattices (cubic F, hexagonal, monoclinic, triclinic), 4 rings, ring pairs r1 <= r2, both tie rules,
-\* block ends as written (bug) and repaired
+\* quick: 8 lattices (cubic F, hexagonal, monoclinic P and C, primitive rhombohedral, pseudo-symmetric orthorhombic,
+\* long-axis tetragonal, triclinic), 4 rings (cell tables, CellLaws, ScaleLaw), ring pairs r1 <= r2 <= 3 for the
+\* deterministic tie rules (the trace run, Orient_trace_q.cfg, covers every recorded ring pair of the 4 rings), both tie
+\* rules, block ends as written (bug) and repaired; Scales_q = the scale exponents of the instance family (the machine
+\* is scale free: ScaleLaw)
 SPECIFICATION Spec
 CONSTANTS
   MODE = "rule"
   Cells <- Cells_q
   NR = 4
-  PairSel = "upper"
+  PairSel = "low"
   TieRules = {"fwd", "rev"}
   BugEnds = {TRUE, FALSE}
   CRanges = {0, 2, 710}
   Rots <- Rots_q
+  Scales <- Scales_q
 INVARIANT TypeOK
 INVARIANT CellLaws
+INVARIANT ScaleLaw
 INVARIANT Complete
 INVARIANT Irredundant
 INVARIANT NoCrash
